@@ -240,7 +240,8 @@ pub fn is_print(r: u32) -> Option<bool> {
         (0xfeff, 0xfeff),   // BOM
         (0xfff0, 0xfffb),   // specials (unassigned, interlinear annotation controls)
         (0xfffe, 0xffff),   // noncharacters
-        (0xe0000, 0xe0fff), // tags (format), unassigned
+        (0xe0000, 0xe00ff), // tags (format), unassigned
+        (0xe01f0, 0xeffff), // unassigned (after the variation selectors supplement)
         (0xf0000, 0x10ffff), // private use planes
     ];
     if in_any(PRINTABLE) {
